@@ -235,6 +235,13 @@ def run_case(case, ctx):
                 _binary(ctx, SA, "__mul__", cnf, "scalar", A * cnf, exact=True, AB=(A, np.full(shape, cnf)))
                 r = ctx.call("sptensor.__rmul__", operator.mul, cnf, SA)
                 _judge(ctx, "sptensor.__rmul__", r, "scalar", cnf * A, exact=True, AB=(A, np.full(shape, cnf)))
+                # a NaN divisor: 0 / NaN is NaN too
+                _binary(ctx, SA, "__truediv__", np.nan, "scalar", A / np.nan, exact=True, AB=(A, np.full(shape, np.nan)))
+            # a Python integer beyond the machine integers as multiplier
+            ctx.feat(scalar="bigint")
+            _binary(ctx, SA, "__mul__", 10 ** 30, "scalar", A * 1e30, exact=True, AB=(A, np.full(shape, 1e30)))
+            r = ctx.call("sptensor.__rmul__", operator.mul, 10 ** 30, SA)
+            _judge(ctx, "sptensor.__rmul__", r, "scalar", 1e30 * A, exact=True, AB=(A, np.full(shape, 1e30)))
             ctx.feat(scalar=None)
             if not case.get("large") and na:
                 # dense right-hand side whose values at stored positions differ from the stored ones in the last bit only (or are the
